@@ -3,7 +3,8 @@ legacy fee negotiation terminates."""
 from lib.verif import *
 
 THEOREMS = [
-    "C17_same_tx", "C17_exact_balances", "C17_fee_payer_guard", "C17_conservation",
+    "C17_same_tx", "C17_signatures_verify", "C17_exact_balances", "C17_fee_payer_guard",
+    "C17_conservation",
     "C17_negotiation_terminates", "C17_negotiation_round_bound_log2",
     "C17_taproot_negotiation_terminates", "C17_ratchet_stuck_refuted",
 ]
@@ -208,9 +209,10 @@ def chan_predicate(c):
 
 
 def pow_bound(lo, hi):
-    """least n with hi * 1000^n <= lo * 1091^n"""
+    """least n with 100 * hi * 1000^n <= 129 * lo * 1091^n (hypothesis of
+    C17_negotiation_terminates)"""
     n = 0
-    a, b = hi, lo
+    a, b = 100 * hi, 129 * lo
     while a > b:
         a *= 1000
         b *= 1091
@@ -238,12 +240,15 @@ def neg_predicate(c):
         if not (lo <= fee <= hi) and not c["tap"]:
             f.append(("C17_negotiation_terminates", "agreed fee %d outside [%d,%d]" % (fee, lo, hi)))
     if realistic:
-        bound = pow_bound(lo, hi) + 3
+        bound = pow_bound(lo, hi) + 4
         if not agreed:
             f.append(("C17_negotiation_terminates", "realistic ideal fees %d/%d did not agree (err=%d %s)"
                       % (c["io"], c["ir"], c["err"], c["msg"])))
         elif len(c["trace"]) > bound:
             f.append(("C17_negotiation_terminates", "%d rounds > bound %d" % (len(c["trace"]), bound)))
+    if c.get("witness") == "stuck" and not (c["open"] and c["err"] == 0 and len(c["trace"]) == c["fuel"]
+                                            and set(c["trace"][2:]) == {1, 5}):
+        f.append(("C17_ratchet_stuck_refuted", "witness (ideal 1 / 5 sat) no longer loops on the real code"))
     if c["tap"] and c["io"] <= c["afford"]:
         if not agreed or c["agreedFee"] != c["io"] or len(c["trace"]) > 3:
             f.append(("C17_taproot_negotiation_terminates", "taproot close did not accept the opener's fee"))
@@ -259,6 +264,8 @@ def prep_neg(c):
 
 def run(ctx):
     pr = ctx.proof_stage(MODULE, THEOREMS, TARGETS, extra_trusted=[
+        "C17_signatures_verify: Section hypothesis verify (pub k) m (sign k m) = true "
+        "(functional correctness of the signature scheme; stated in the theorem)",
         "signature schemes, sighash, tx serialisation, btcd txscript engine, MuSig2: not modelled; "
         "exercised on every channel case by the harness (engine verdict, byte equality, tamper check)",
         "input.ScriptIsOpReturn is an input of the model (its answer is recorded by the harness)",
